@@ -40,19 +40,24 @@ func StartSessionGC() {
 	ticker := time.NewTicker(gcInterval)
 	go func() {
 		for range ticker.C {
-			now := time.Now()
-			for item := range sessionStore.Items() {
-				expiryMu.Lock()
-				expired := item.ExpiresAt.Before(now)
-				expiryMu.Unlock()
-				if expired {
-					sessionStore.Delete(item.ID)
-					slog.Debug("Deleted expired session", "session_id", item.ID)
-				}
-			}
+			collectExpiredSessions()
 		}
 	}()
 	gcRunning = true
+}
+
+// collectExpiredSessions is one pass of the session garbage collector.
+func collectExpiredSessions() {
+	now := time.Now()
+	for item := range sessionStore.Items() {
+		expiryMu.Lock()
+		expired := item.ExpiresAt.Before(now)
+		expiryMu.Unlock()
+		if expired {
+			sessionStore.Delete(item.ID)
+			slog.Debug("Deleted expired session", "session_id", item.ID)
+		}
+	}
 }
 
 func GetSession(sid string) (*Session, bool) {
